@@ -208,6 +208,7 @@ impl Check for C04Check {
                 let s = c02::random_source(t);
                 judge(&s, ctx);
             }
+            (_, Input::Text(s)) => judge(s, ctx),
             _ => {}
         }
     }
